@@ -25,6 +25,7 @@ from vverif.core import Result, Violation, HarnessError
 
 LEVEL = 'model_checking'
 CONF = 'acl VPurge method PURGE\nhttp_access allow VPurge\nretry_on_error off\n'
+# (the default icon_directory of lockstep.Squid makes every kid log ~100 missing-icon errors at start-up)
 SIZES = {'slot+1': 4000, '1page': 30000, '3pages': 90000}
 MAX_STEPS = 600
 
@@ -59,7 +60,10 @@ STORES = {'shm': 'cache_mem 8 MB\nmemory_cache_shared on\nmaximum_object_size_in
           'rock': 'cache_mem 0\n'}                                                                      # rock only: every hit goes through the disker
 
 
-QUICK_BOUND2 = {('purge', 'off', 'shm'), ('purge', 'off', 'rock'), ('read-during-write', 'on', 'shm'), ('refresh', 'off', 'shm')}
+QUICK_BOUND2 = {('purge', 'off', 'shm'), ('read-during-write', 'on', 'shm'), ('refresh', 'off', 'shm')}
+
+
+THOROUGH_BOUND3 = {('purge', 'off', 'shm'), ('read-during-write', 'on', 'shm')}
 
 
 def cases_for(tier):
@@ -82,7 +86,13 @@ def cases_for(tier):
                         if quick:
                             bound = 2 if (sz == 'slot+1' and fr == 'cl' and (sc, cf, st) in QUICK_BOUND2) else 1
                         else:
-                            bound = 3 if (sz == 'slot+1' and fr == 'cl' and sc != 'two-writers') else (2 if sz != '3pages' else 1)
+                            key = (sc, cf, st)
+                            if sz == 'slot+1':
+                                bound = 3 if (fr == 'cl' and key in THOROUGH_BOUND3) else 2
+                            elif sz == '1page':
+                                bound = 2 if (fr == 'cl' and key in QUICK_BOUND2) else 1
+                            else:
+                                bound = 1
                         out.append({'scenario': sc, 'size': sz, 'framing': fr, 'cf': cf, 'store': st, 'bound': bound})
     return out
 
@@ -98,7 +108,7 @@ class World:
         self.step = step
         conf = CONF + STORES[store] + ('collapsed_forwarding on\n' if cf == 'on' else '')
         self.sq = lssmp.SmpSquid(ctx, name, port_base, workers=2, cache_dir='rock %s 16 slot-size=4096', memory_cache=True, conf=conf)
-        self.sq.conf_extra += self.sq.per_worker_ports_conf()
+        self.sq.conf_extra += self.sq.per_worker_ports_conf() + 'icon_directory %s/icons\n' % ctx.tree
         self.origin_port = port_base + 1
         self.origin = ls.Listener(self.origin_port)
         self.cf = cf
@@ -575,18 +585,27 @@ def order_cases(cases, nshards):
     for k in by:
         units = []
         for c in by[k]:
-            nparts = 1 if c['bound'] <= 1 and c['size'] != '3pages' else (3 if c['bound'] <= 1 else (4 if c['size'] == 'slot+1' and c['bound'] == 2 else 8))
+            if c['bound'] <= 1:
+                nparts = 3 if c['size'] == '3pages' else 1
+            elif c['bound'] == 2:
+                nparts = 4 if c['size'] == 'slot+1' else 12
+            else:
+                nparts = 16
             for part in range(nparts):
                 u = dict(c)
                 u['part'], u['nparts'] = part, nparts
                 units.append(u)
         by[k] = units
     out = []
-    while any(by.values()):
+    while all(by.values()):                 # aligned rounds: shard i only sees instance kind i % 4
         for k in KINDS:
-            out.append(by[k].pop(0) if by[k] else None)
-    # keep positions (None = no case for this slot of the round-robin deal)
-    return out
+            out.append(by[k].pop(0))
+    rest = []
+    while any(by.values()):                 # the (lighter) remainder of the longer lists goes to whoever is next
+        for k in KINDS:
+            if by[k]:
+                rest.append(by[k].pop(0))
+    return out + rest
 
 
 def run(ctx):
@@ -607,12 +626,18 @@ def run(ctx):
                 out['probes'] += st['w'][kind].sq.probes
                 st['w'][kind].stop()
                 st['w'][kind] = None
-            w = make_world(ctx, shard, *kind)
-            try:
-                w.start()
-            except BaseException:
-                w.stop()
-                raise
+            for attempt in range(2):
+                w = make_world(ctx, shard, *kind)
+                try:
+                    w.start()
+                    break
+                except HarnessError:
+                    w.stop()
+                    if attempt:
+                        raise
+                except BaseException:
+                    w.stop()
+                    raise
             out['starts'] += 1
             st['w'][kind] = w
 
@@ -628,8 +653,9 @@ def run(ctx):
                 fresh(kind)
             return r
         try:
-            if mine:
-                # determinism obligation: the first executions of this shard's first case on two separate instances
+            if mine and shard < 2 * len(KINDS):
+                # determinism obligation (two shards per instance kind; an SMP instance start is expensive): the first
+                # executions of this shard's first case on two separate instances
                 runs = []
                 for rep in range(2):
                     got = []
